@@ -350,11 +350,12 @@ def fields_name(fs: list) -> str:
     return '+'.join('circuit' if f == 'ops' else f for f in fs)
 
 
-def match(exp: list, act: list, own: dict) -> tuple:
+def match(exp: list, act: list, own: dict, last_ctl: Any = None) -> tuple:
     """Compare a structured expected trace with a flat actual one.
-    Returns (mismatch | None, events consumed, final-candidates | None)."""
+    Returns (mismatch | None, events consumed, final-candidates | None).
+    `last_ctl`: the last state-restoring / selecting step before this
+    stretch of the trace (used to name the cause of a state mismatch)."""
     pos = 0
-    last_ctl = None
     for e in exp:
         if e[0] == 'ctl':
             last_ctl = e
@@ -370,7 +371,7 @@ def match(exp: list, act: list, own: dict) -> tuple:
             for btr, ids in zip(e[2], e[3]):
                 proj = [a for a in seg if a[1] in ids]
                 got += len(proj)
-                m, used, _ = match(btr, proj, own)
+                m, used, _ = match(btr, proj, own, last_ctl)
                 if m is None and used != len(proj):
                     m = {'kind': 'structure', 'owner': 'paralleldo',
                          'detail': 'extra-invocations'}
@@ -396,13 +397,13 @@ def match(exp: list, act: list, own: dict) -> tuple:
                     return ({'kind': 'structure', 'owner': 'paralleldo',
                              'detail': 'extra-invocations'}, pos, None)
                 pref = _prefix(btr, len(proj))
-                m, used, _ = match(pref, proj, own)
+                m, used, _ = match(pref, proj, own, last_ctl)
                 if m is not None:
                     return (m, pos, None)
                 if len(proj) == need:
                     complete.append(bi)
             for a in seg:
-                if a[0] == 'lt' and a[2] is not False:
+                if a[0] == 'lt' and a[1] == e[1] and a[2] is not False:
                     return ({'kind': 'structure', 'owner': 'paralleldo',
                              'detail': 'less-than-answer'}, pos, None)
             if not complete:
@@ -562,7 +563,7 @@ def run_control_case(term: list, scripts: dict, bound: int) -> dict:
     res: dict = {'calls': S.calls, 'events': len(act)}
     if m is not None:
         sig = signature_of(m)
-        if pick_first:
+        if pick_first and m['kind'] == 'structure':
             sig = sig.replace('paralleldo-', 'paralleldo-pickfirst-', 1)
         res['sig'] = sig
         small = {k: v for k, v in m.items() if k not in ('cause',)}
@@ -1361,6 +1362,8 @@ def run(ctx: Ctx) -> None:
         'gen_replace_filter(method, model) answers on the reference result',
     ])
 
+    if not ctx.cov['samples']:
+        ctx.sample({'control-term': terms[min(20, len(terms) - 1)]})
     # simplest counterexample first for each signature
     viols.sort(key=lambda v: (v[3], repr(v[2])))
     for sig, what, rep, _ in viols:
